@@ -11,4 +11,12 @@ def centerSub : Int := 1
 def centerDiv : Int := 2
 /-- column of `ornt` read by the dim_info remap `int(ornt[orig_dim, col])` (nifti1.py) -/
 def dimInfoCol : Nat := 0
+/-- every attribute `self.X` that `SpatialImage.as_reoriented` touches (spatialimages.py) -/
+def reorientSelfAttrs : List String := ["__class__", "affine", "dataobj", "header", "shape"]
+/-- every attribute `self.img.X` that `SpatialFirstSlicer.__getitem__` touches (spatialimages.py) -/
+def slicerImgAttrs : List String := ["__class__", "dataobj", "header"]
+/-- every attribute `self.X` that `Nifti1Pair.as_reoriented` touches (nifti1.py) -/
+def niftiReorientSelfAttrs : List String := []
+/-- every attribute `img.X` that `as_closest_canonical` touches (funcs.py) -/
+def canonicalImgAttrs : List String := ["affine", "as_reoriented"]
 end Nb.C05.Gen
